@@ -15,7 +15,7 @@ RULE = ('sequences of operations (reads of raw byte chunks cut at arbitrary offs
         'send families run on fake OS endpoints; delivered texts, bytes on the wire, log events (writes and flushes, in order) and return values compared with the model; distinct = distinct model inputs')
 
 
-def corr_cases(ctx, pexpect, n):
+def corr_cases(ctx, pexpect, n, setlogs=False):
     rng = ctx.rng
     cases = []
     stats = {'transport': {0: 0, 1: 0, 2: 0, 3: 0}, 'unicode': 0, 'ops': 0}
@@ -24,7 +24,7 @@ def corr_cases(ctx, pexpect, n):
         which = rng.choice([0, 0, 1, 2, 3])
         uni = rng.random() < 0.5
         logs = (rng.random() < 0.6, rng.random() < 0.6, rng.random() < 0.6)
-        plan, control_bytes, raw = IO.gen_ops(rng, which, uni)
+        plan, control_bytes, raw = IO.gen_ops(rng, which, uni, setlogs=setlogs)
         ops = [p if p[0] != 'ctl' else ('control', p[1], p[2]) for p in plan]
         try:
             delivered, wire, sink, rets, c = IO.run_ops(pexpect, which, uni, logs, ops)
@@ -38,7 +38,7 @@ def corr_cases(ctx, pexpect, n):
         model_ops = list(ops)
         # write() returns None: the model returns the count, compare only where the API returns one
         exp_rets = []
-        for o, r in zip([o for o in ops if o[0] != 'read'], rets):
+        for o, r in zip([o for o in ops if o[0] not in ('read', 'setlogs')], rets):
             exp_rets.append(r)
         inp = '(%s, (%s, %s, %s), %s, %s)' % (cbool(uni), cbool(logs[0]), cbool(logs[1]), cbool(logs[2]), cnat(which),
                                              IO.coq_ops(model_ops, control_bytes))
@@ -47,7 +47,7 @@ def corr_cases(ctx, pexpect, n):
         # returns: replace None (write) by the byte count the model computes -> compare as model value by re-deriving
         fixed_rets = []
         wi = 0
-        for o, r in zip([o for o in ops if o[0] != 'read'], rets):
+        for o, r in zip([o for o in ops if o[0] not in ('read', 'setlogs')], rets):
             if r is None:
                 fixed_rets.append(len(wire[wi]))
             else:
@@ -55,7 +55,8 @@ def corr_cases(ctx, pexpect, n):
             wi += 2 if (o[0] == 'sendline' and which == 2) else 1
         cases.append((inp, [delivered, wire, IO.encode_events(sink), fixed_rets],
                       {'transport': which, 'unicode': uni, 'logs': logs, 'ops': [repr(o) for o in ops]}))
-    ctx.oracle_stats['io_runs'] = stats
+    if not setlogs:
+        ctx.oracle_stats['io_runs'] = stats
     return cases, results
 
 
@@ -466,6 +467,10 @@ def run_property(ctx, which, props_file):
     cases, results = corr_cases(ctx, pexpect, 20000 if thorough else 3000)
     if os.path.exists(os.path.join(common.COQ, 'IO/Run.vo')):
         ctx.run_cases('io-paths', ['IO.Model', 'IO.Run'], 'run_io', 'bool * (bool * bool * bool) * nat * list op', cases, shard=400)
+        if which == 'C11':
+            # the log attributes are reassigned in the middle of the session: they must be looked up at every call
+            lcases, _ = corr_cases(ctx, pexpect, 5000 if thorough else 800, setlogs=True)
+            ctx.run_cases('io-paths-logs', ['IO.Model', 'IO.Run'], 'run_iox', 'bool * (bool * bool * bool) * nat * list xop', lcases, shard=400)
     else:
         ctx.corr_broken.append(('io-paths', {'error': 'model did not build'}))
     if which == 'C07':
